@@ -11,10 +11,10 @@ CHECKS = {
 "C03": ("exploration", "Edit primitive: exhaustive small scope + random (text, span, suggestion) triples against a reference splice; real lints: every lint of generated documents of every front-end/config/dialect must lie inside the text and each of its suggestions must equal the reference splice.",
         "Reference splice is slice concatenation.",
         "property-based testing (proptest) + exhaustive small-scope enumeration; reference-model oracle"),
-"C04": ("exploration", "Files rendered from an abstract specification together with their ground truth (prose words and their char offsets; non-prose regions filled from a disjoint sentinel vocabulary incl. multi-byte text) for all 22 comment languages (every comment style, ignore markers, indentation, CRLF) and for Markdown, HTML, Literate Haskell, git-commit and Typst; oracle: the multiset of (offset, text) of Word tokens equals the prose-word list exactly and no lintable token lies in a non-prose region; each file is checked bare, with the server's identifier-collapsing wrapper, and with the front-end chosen from the file name (the harper-cli path).",
+"C04": ("exploration", "Files rendered from an abstract specification together with their ground truth (prose words and their char offsets; non-prose regions filled from a disjoint sentinel vocabulary incl. multi-byte text) for all 22 comment languages (every comment style, ignore markers, indentation, CRLF, comments holding a fenced code example with empty lines inside it) and for Markdown, HTML, Literate Haskell, git-commit and Typst; oracle: the multiset of (offset, text) of Word tokens equals the prose-word list exactly and no lintable token lies in a non-prose region; each file is checked bare, with the server's identifier-collapsing wrapper, and with the front-end chosen from the file name (the harper-cli path).",
         "Per-language code templates are syntactically valid by construction; Typst string literals are treated as prose except in the positional arguments harper-typst skips (lenient reading). One open known finding (Ruby =begin/=end).",
         "property-based testing (proptest) with a constructive ground-truth oracle"),
-"C05": ("exploration", "Stateful: op sequences (SetConfig | Lint(doc, language)) on one long-lived LintGroup over a pool in which clause characters recur at other offsets / languages / configs; after every Lint the result must equal that of a freshly built linter. Plus 8 threads vs sequential, a linter moved across threads, two fresh processes byte-identical, LRU-eviction run (thorough); dictionary_change_detection: merged dictionaries that compare equal (the test on which harper-ls keeps its linter) must lint alike, and a thread that parsed with one dictionary and then with another of the same size reports what a fresh thread reports.",
+"C05": ("exploration", "Stateful: op sequences (SetConfig | Lint(doc, language) | LintEdited: a clause, a same-length edit of it 0-300 characters in, the clause again) on one long-lived LintGroup over a pool in which clause characters recur at other offsets / languages / configs; after every Lint the result must equal that of a freshly built linter. Plus 8 threads vs sequential, a linter moved across threads, two fresh processes byte-identical, LRU-eviction run (thorough); dictionary_change_detection: merged dictionaries that compare equal (the test on which harper-ls keeps its linter) must lint alike, and a thread that parsed with one dictionary and then with another of the same size reports what a fresh thread reports.",
         "Differential against LintGroup::new_curated(..).with_lint_config(current) on the same Document.",
         "model-based / differential property testing over operation histories (proptest vec(op) + interpreter)"),
 "C06": ("exploration", "Every entry of the curated dictionary x 4 dialects enumerated alone (re-cased forms too), random entries inside sentence frames; conversely generated non-words must get exactly one Spelling lint with the exact span and only dictionary suggestions of the active dialect; every dialect-tagged entry alone vs inside noun-phrase frames (verdict independent of neighbours, exhaustive); user words merged with the curated dictionary are never reported in their listed capitalisation. Ground truth = the dictionary's own word list.",
